@@ -38,6 +38,17 @@ def check_no_unsimulated_imports():
     return bad
 
 
+class _Null:
+    def write(self, s):
+        return len(s)
+
+    def flush(self):
+        pass
+
+
+_NULL = _Null()
+
+
 class SeededRandomModule:
     """Stand-in for the ``random`` module inside sievelib.digest_md5."""
 
@@ -116,6 +127,7 @@ class World:
         self.read_timeout = read_timeout
         self._saved = None
         self._calls = 0
+        self.debug = False       # swarm knob: clients created with debug=True (their prints are swallowed)
         self.clients = []
         self.parse_breaches = []
 
@@ -167,7 +179,7 @@ class World:
 
     # -- clients ----------------------------------------------------------
     def new_client(self, host="sieve.example", port=4190):
-        c = self.client_cls(host, port)
+        c = self.client_cls(host, port, debug=self.debug) if self.debug else self.client_cls(host, port)
         self.clients.append(c)
         return c
 
@@ -180,6 +192,10 @@ class World:
         out = Outcome()
         out.call_id = cid
         net.events.append(("op", cid, method, repr(args), repr(sorted(kw.items()))))
+        saved_stdout = None
+        if self.debug:
+            saved_stdout = sys.stdout
+            sys.stdout = _NULL
         try:
             fn = getattr(client, method)
             out.value = fn(*args, **kw)
@@ -199,6 +215,9 @@ class World:
             out.exc_type = "Error" if isinstance(e, self.error_cls) else type(e).__name__
             out.exc_msg = str(e)
             out.exc_obj = e
+        finally:
+            if saved_stdout is not None:
+                sys.stdout = saved_stdout
         out.errcode = getattr(client, "errcode", None)
         out.errmsg = getattr(client, "errmsg", None)
         out.writes = tuple(net.writes[nw:])
